@@ -122,12 +122,21 @@ type plan struct {
 	midDepth     int
 	midSpec      []int
 	midOrder     int
+	// FINALITY moves while the client is still scanning (added after seed C17-h): before FilterStateUpdate call number finAdvAt
+	// (-1: never) the finalised height rises to the next / the last block carrying events above it, or to the tip; and again
+	// before the following call when finAdvTwice is set
+	finAdvAt    int
+	finAdvMode  int
+	finAdvTwice bool
 }
 
 func (p plan) String() string {
 	s := fmt.Sprintf("chunk=%d chainIDFail=%d latestFail=%v finFail=%d filterFailAt=%d watchFail=%d", p.chunk, p.chainIDFailN, p.latestFail, p.finFailN, p.filterFailAt, p.watchFailN)
 	s += fmt.Sprintf(" kinds(chainID=%s latest=%s fin=%s filter=%s laterLatest=%s)", kindName[p.chainIDKind], kindName[p.latestKind],
 		kindName[p.finKind], kindName[p.filterKind], kindsString(p.latestLater))
+	if p.finAdvAt >= 0 {
+		s += fmt.Sprintf(" finality-advance@filter#%d(mode=%d,twice=%v)", p.finAdvAt, p.finAdvMode, p.finAdvTwice)
+	}
 	if p.midAt >= 0 {
 		if p.midReorg {
 			s += fmt.Sprintf(" midscan@%d=reorg(depth<=%d,new=%v,order=%d)", p.midAt, p.midDepth, p.midSpec, p.midOrder)
@@ -675,6 +684,42 @@ func (p *provider) filterEvents(from, to uint64, match bool) ([]*event, error) {
 			h.flagLocked("midscan-mine")
 		}
 	}
+	if h.pl.finAdvAt >= 0 && (idx == h.pl.finAdvAt || (h.pl.finAdvTwice && idx == h.pl.finAdvAt+1)) {
+		// finality moves on while the client is still scanning: whatever the scan read at its start is stale now. The scan is
+		// then no longer expected to end exactly on the last finalised commit (that oracle is for undisturbed scans); the
+		// invariants (never above what was reported as finalised, never regressing, a delivered unremoved event) stay.
+		fin, cap := h.fin, h.finCapLocked()
+		target := fin
+		switch h.pl.finAdvMode {
+		case 0: // the next block carrying events
+			for n := fin + 1; n <= cap; n++ {
+				if len(h.blocks[n].evs) > 0 {
+					target = n
+					break
+				}
+			}
+		case 1: // the last block carrying events
+			for n := cap; n > fin; n-- {
+				if len(h.blocks[n].evs) > 0 {
+					target = n
+					break
+				}
+			}
+		default:
+			target = cap
+		}
+		if target > fin {
+			if h.bufferedHeightsLocked(fin, target) >= 2 {
+				h.flagLocked("nt:finality-past-2-buffered")
+			}
+			h.fin = target
+			h.scanDisturbed = true
+			h.flagLocked("midscan-finality-advance")
+			if idx > 0 {
+				h.flagLocked("midscan-finality-advance-between-chunks")
+			}
+		}
+	}
 	if idx == h.pl.filterFailAt {
 		h.injected++
 		if idx > 0 {
@@ -1077,7 +1122,7 @@ const maxScanQueries = 40
 
 func (h *harness) drawPlan(label string) plan {
 	rt := h.rt
-	p := plan{filterFailAt: -1, midAt: -1}
+	p := plan{filterFailAt: -1, midAt: -1, finAdvAt: -1}
 	p.chunk = genChunk.Draw(rt, label+"chunk")
 	h.mu.Lock()
 	tip := uint64(len(h.blocks) - 1)
@@ -1113,6 +1158,11 @@ func (h *harness) drawPlan(label string) plan {
 		p.midDepth = rapid.SampledFrom([]int{1, 2, 3, 4, 1, 2, 3, 4, 70, 1000}).Draw(rt, label+"midDepth")
 		p.midSpec = rapid.SliceOfN(genReorgEvents, 1, 4).Draw(rt, label+"midSpec")
 		p.midOrder = rapid.IntRange(0, 1).Draw(rt, label+"midOrder")
+	}
+	if rapid.IntRange(0, 3).Draw(rt, label+"finAdv") == 0 {
+		p.finAdvAt = rapid.IntRange(0, 3).Draw(rt, label+"finAdvAt")
+		p.finAdvMode = rapid.IntRange(0, 2).Draw(rt, label+"finAdvMode")
+		p.finAdvTwice = rapid.Bool().Draw(rt, label+"finAdvTwice")
 	}
 	return p
 }
@@ -1652,7 +1702,7 @@ const rule = "rapid-drawn script against the real l1.Client + real Blockchain(me
 	"Removed copies (ascending/descending) of every delivered log before the new logs, subscription errors, unreachable periods with missed logs, failing " +
 	"resubscriptions / FinalisedHeight / ChainID / LatestHeight / FilterStateUpdate with a drawn failure kind (transport error, eth.ErrNotFound " +
 	"sentinel, context deadline), outages of the finalised-height query (every poll fails, not-found / error / deadline / mixed, until the script ends " +
-	"them; also from the start, across restarts, with subscription errors inside) and flaky cyclic answer patterns, chain changes during the catch-up " +
+	"them; also from the start, across restarts, with subscription errors inside) and flaky cyclic answer patterns, chain changes and FINALITY ADVANCES (to the next or last event block or the tip, between any two chunks, once or twice) during the catch-up " +
 	"scan, chunk sizes 1..50 (64..5000 on a tall chain), restarts via Run and via CatchUpL1Head; count-based synchronisation. Non-trivial = a Removed copy is delivered for a buffered event, or " +
 	"finality advances past >= 2 buffered L1 blocks at once, or a restart/resubscription happens with a non-empty buffer; distinct = distinct script"
 
